@@ -22,6 +22,10 @@ GRIDS = {
     # 6 and 8 directions, dyadic offset
     "D6": dict(freq=[0.1, 0.2, 0.3], dir=[7.5, 67.5, 127.5, 187.5, 247.5, 307.5]),
     "D8": dict(freq=[0.1, 0.4], dir=[0.0, 45.0, 90.0, 135.0, 180.0, 225.0, 270.0, 315.0]),
+    # two-direction sector (20 deg apart): relabelling by 350 puts the 0/360 seam between the two bins
+    "S2": dict(freq=[0.1, 0.2, 0.4], dir=[0.0, 20.0]),
+    # the same sector stored across the seam
+    "S2W": dict(freq=[0.1, 0.2, 0.4], dir=[350.0, 10.0]),
 }
 
 
